@@ -3,7 +3,8 @@ from vlib.mo import *
 from vlib.runner import KH, run_kani_group, run_mir_obligations
 
 LEVEL = "other"
-EXPLANATION = "Kani/CBMC bounded verdicts over the real ranking kernels (orders, binary heap, oversampling arithmetic, user-distance conversion) with fully symbolic floats; MIR path obligations for the tombstone filter."
+EXPLANATION = ("Kani/CBMC bounded verdicts over the real ranking kernels (orders, binary heap, oversampling arithmetic, user-distance conversion) with fully symbolic floats; mirflow/z3 path obligations for the tombstone filter, "
+               "the merge order and the canonical hot-candidate filter on the single, batch and timed search entry points.")
 TRUSTED_BASE = ["Kani 0.68 MIR->goto translation", "CBMC 6.11 float semantics + CaDiCaL", "Kani's model of sqrtf32 (O6.2 only uses sign/NaN facts)"]
 NOT_COVERED = ["that the graph search returns true neighbours", "reported distance vs stored vector end to end", "SIMD-vs-scalar rounding", "histories with drains and compaction",
                "merge_knn_results (std HashMap dedup is beyond CBMC here)"]
